@@ -1725,3 +1725,57 @@ def galts(t):
     if t[0] == "gphi":
         return {k: v for k, v in t[1]}
     return {(): t}
+
+
+_CONV_FUNCS = {"numpy.asarray", "numpy.array", "numpy.asanyarray", "numpy.asarray_chkfinite"}
+
+
+def strip_conv(t):
+    """t with every value-preserving array conversion np.asarray(X) / np.array(X) / np.asarray_chkfinite(X) (optionally dtype=float) replaced by X.
+    For rules about WHICH value flows where; whether a value is converted (array-like, finite, float) is decided by obligations of their own."""
+    if isinstance(t, frozenset):
+        return frozenset(strip_conv(x) for x in t)
+    if not isinstance(t, tuple) or not t:
+        return t
+    if isinstance(t[0], str):
+        if t[0] == "call" and len(t) == 4 and t[1][0] == "global" and t[1][1] in _CONV_FUNCS and len(t[2]) == 1 \
+                and all(k == "dtype" and v in (("global", "float"), ("global", "numpy.float64"), ("global", "numpy.double")) for k, v in t[3]):
+            return strip_conv(t[2][0])
+        if t[0] in ("const", "param", "global", "self", "unknown", "func"):
+            return t
+    return tuple(strip_conv(x) if isinstance(x, (tuple, frozenset)) else x for x in t)
+
+
+class ConvTransparent:
+    """A builder whose terms have the value-preserving array conversions removed (strip_conv): for rules about which value flows where."""
+
+    def __init__(self, b):
+        self._b = b
+
+    def term(self, *a, **k):
+        return strip_conv(self._b.term(*a, **k))
+
+    def name(self, *a, **k):
+        return strip_conv(self._b.name(*a, **k))
+
+    def index(self, *a, **k):
+        return strip_conv(self._b.index(*a, **k))
+
+    def def_term(self, *a, **k):
+        return strip_conv(self._b.def_term(*a, **k))
+
+    def __getattr__(self, n):
+        return getattr(self._b, n)
+
+
+class ConvTransparentPC:
+    """path conditions with the conversions removed from every literal (companion of ConvTransparent)"""
+
+    def __init__(self, pcs):
+        self._p = pcs
+
+    def of(self, st):
+        return tuple(strip_conv(l) for l in self._p.of(st))
+
+    def __getattr__(self, n):
+        return getattr(self._p, n)
